@@ -113,6 +113,7 @@ static void ev_end(void) {
 static void ev_ctx(int c) {
     zckCtx *z = ctxs[c];
     ev_int("c", c);
+    if(shim_alloc_fired) ev_int("afired", shim_alloc_fired);
     if(z) {
         ev_int("err", zck_is_error(z));
         ev_int("fired", shim_fired); ev_int("firederr", shim_fired_err);
